@@ -4,6 +4,8 @@ import ZvbiModel.Demux.LemmasSpec
 -/
 namespace Zvbi.Demux
 
+variable {cfg : SrcCfg}
+
 /-- header evaluation once a VBI start code was found at `p`; `h = p[0 .. 46)` -/
 def foundRes (p : Nat) (fs : FS) (h : Bytes) : (Nat × Nat) × FS :=
   let packetLength := (h.getD 4 0 % 256) * 256 + h.getD 5 0 % 256
@@ -25,8 +27,8 @@ def scanFinish (sk : Nat) (fs : FS) (win : Bytes) : ScanR → (Nat × Nat) × FS
     if h.length < 46 then ((sk, 48), fs, [], some (.fault (.oob "pes_header")))
     else ((foundRes p fs h).1, (foundRes p fs h).2, [], none)
 
-theorem pesIter_scan (cb se : Bool) (sk : Nat) (fs : FS) (win : Bytes) (h : 48 ≤ win.length) :
-    pesIter cb se sk 48 fs win = scanFinish sk fs win (scanLoop (win.length + 1) win (win.length - 48) 0) := by
+theorem pesIter_scan (cb : Bool) (sk : Nat) (fs : FS) (win : Bytes) (h : 48 ≤ win.length) :
+    pesIter cb cfg sk 48 fs win = scanFinish sk fs win (scanLoop (win.length + 1) win (win.length - 48) 0) := by
   unfold pesIter
   simp only [PES_HEADER_LOOKAHEAD, Nat.lt_irrefl, gt_iff_lt, if_false]
   rw [if_neg (by omega)]
@@ -94,10 +96,10 @@ def scanStepRes (fs : FS) (a b c d : Nat) (r : Bytes) : (Nat × Nat) × FS × Li
     | _ => ((0, 48), fs, [], some (.fault (.oob "pes_foreign_len")))
 
 theorem micro_scan48 (fs : FS) (a b c d : Nat) (r : Bytes) (hr : r.length = 44) :
-    micro { skip := 0, lookahead := 48, fs := fs } (a :: b :: c :: d :: r) = scanStepRes fs a b c d r := by
+    micro cfg { skip := 0, lookahead := 48, fs := fs } (a :: b :: c :: d :: r) = scanStepRes fs a b c d r := by
   unfold micro
   simp only []
-  rw [pesIter_scan _ _ _ _ _ (by simp [hr])]
+  rw [pesIter_scan _ _ _ _ (by simp [hr])]
   have hl : (a :: b :: c :: d :: r).length = 48 := by simp [hr]
   rw [hl]
   unfold scanStepRes
@@ -123,7 +125,7 @@ def scanCore (p : Nat) (fs : FS) (win : Bytes) : ScanD → Core
 
 theorem arun_scan_step (L win : Bytes) (fs : FS) (p : Nat) (hpre : win <+: L) (hp : p + 48 ≤ win.length)
     (a b c d : Nat) (rest : Bytes) (hd : win.drop p = a :: b :: c :: d :: rest) :
-    arun { skip := p, lookahead := 48, fs := fs } L = arun (scanCore p fs win (scanPos a b c d)) L := by
+    arun cfg { skip := p, lookahead := 48, fs := fs } L = arun cfg (scanCore p fs win (scanPos a b c d)) L := by
   obtain ⟨t, rfl⟩ := hpre
   have hrl : rest.length = win.length - p - 4 := by
     have := congrArg List.length hd
@@ -133,16 +135,16 @@ theorem arun_scan_step (L win : Bytes) (fs : FS) (p : Nat) (hpre : win <+: L) (h
     rw [List.drop_append_of_le_length (by omega), List.take_append_of_le_length (by simp; omega), hd]
     simp
   have hpL : p ≤ (win ++ t).length := by simp; omega
-  have e0 := arun_skip (win ++ t) p 0 48 fs hpL
+  have e0 := arun_skip (cfg := cfg) (win ++ t) p 0 48 fs hpL
   simp only [Nat.add_zero] at e0
   rw [e0]
   have hL48 : 48 ≤ ((win ++ t).drop p).length := by simp; omega
-  have hm := micro_scan48 fs a b c d (rest.take 44) (by simp; omega)
+  have hm := micro_scan48 (cfg := cfg) fs a b c d (rest.take 44) (by simp; omega)
   rw [← hv] at hm
   -- back from the suffix to the whole stream
-  have back : ∀ (sk la : Nat) (fs' : FS), arun { skip := sk, lookahead := la, fs := fs' } ((win ++ t).drop p)
-      = arun { skip := p + sk, lookahead := la, fs := fs' } (win ++ t) := by
-    intro sk la fs'; exact (arun_skip (win ++ t) p sk la fs' hpL).symm
+  have back : ∀ (sk la : Nat) (fs' : FS), arun cfg { skip := sk, lookahead := la, fs := fs' } ((win ++ t).drop p)
+      = arun cfg { skip := p + sk, lookahead := la, fs := fs' } (win ++ t) := by
+    intro sk la fs'; exact (arun_skip (cfg := cfg) (win ++ t) p sk la fs' hpL).symm
   unfold scanStepRes at hm
   cases hsp : scanPos a b c d with
   | adv n =>
@@ -186,14 +188,14 @@ theorem scanLoop_arun (L win : Bytes) (fs : FS) (sk0 : Nat) (hpre : win <+: L) (
     ∀ (fuel p : Nat), p ≤ win.length - 48 → win.length - 48 - p < fuel →
     ∃ sk la fs', scanFinish sk0 fs win (scanLoop fuel win (win.length - 48) p) = ((sk, la), fs', [], none)
       ∧ p + 1 ≤ sk ∧ 48 ≤ la ∧ la ≤ 65495
-      ∧ arun { skip := p, lookahead := 48, fs := fs } L = arun { skip := sk, lookahead := la, fs := fs' } L := by
+      ∧ arun cfg { skip := p, lookahead := 48, fs := fs } L = arun cfg { skip := sk, lookahead := la, fs := fs' } L := by
   intro fuel
   induction fuel with
   | zero => intro p _ h; omega
   | succ fuel ih =>
     intro p hp hf
     obtain ⟨a, b, c, d, rest, hd⟩ := drop_four win p (by omega)
-    have hstep := arun_scan_step L win fs p hpre (by omega) a b c d rest hd
+    have hstep := arun_scan_step (cfg := cfg) L win fs p hpre (by omega) a b c d rest hd
     have hrl : rest.length = win.length - p - 4 := by
       have := congrArg List.length hd
       simp at this; omega
